@@ -721,3 +721,55 @@ def contracts():
     c.prop = PROP
     c.clause_prefixes = ["the update runs inside", "update called", "only an exception"]
     return _c14_base_sync() + [c]
+
+
+# ---------------------------------------------------------------------------------------------
+# concrete probe: a constant is pinned on the instance however the instance was made — also inside
+# shared_parameters(), also on copies — so nothing done to the class later rebinds it
+# ---------------------------------------------------------------------------------------------
+PINNED_REPLAY = '''import sys, os, itertools, copy, pickle
+sys.path.insert(0, os.environ.get('PYVC_REPO', '/repo'))
+import param
+bad = []
+class K(param.Parameterized):
+    c = param.Parameter(default='first', constant=True)
+    lst = param.List(default=[1], constant=True)
+    n = param.Number(default=1, constant=True)
+def make(how):
+    if how == 'plain':
+        return K()
+    if how == 'shared':
+        with param.shared_parameters():
+            return K()
+    if how == 'shared-twice':
+        with param.shared_parameters():
+            K()
+            return K()
+    if how == 'deepcopy':
+        return copy.deepcopy(K())
+    if how == 'pickle':
+        return pickle.loads(pickle.dumps(K()))
+for how in ('plain', 'shared', 'shared-twice', 'deepcopy', 'pickle'):
+    saved = {k: K.param[k].default for k in ('c', 'lst', 'n')}
+    try:
+        o = make(how)
+        before = {k: getattr(o, k) for k in ('c', 'lst', 'n')}
+        K.c = 'second'; K.lst = [2]; K.n = 2
+        for k, v in before.items():
+            now = getattr(o, k)
+            if now is not v and now != v:
+                bad.append('instance made by %s: after the class-level assignment K.%s = ... its constant %s reads %r (was %r)' % (how, k, k, now, v))
+            try:
+                setattr(o, k, {'c': 'third', 'lst': [9], 'n': 7}[k])
+                bad.append('instance made by %s: constant %s can be assigned' % (how, k))
+            except TypeError:
+                pass
+    finally:
+        for k, v in saved.items():
+            setattr(K, k, v)
+if bad:
+    print('REPRODUCED: ' + bad[0]); sys.exit(1)
+print('NOT-REPRODUCED'); sys.exit(0)
+'''
+
+PROBES = PROBES + [("constants stay pinned on instances made inside shared_parameters() and on copies", PINNED_REPLAY)]
